@@ -633,3 +633,62 @@ for _rf, _nm in ((1, "reply_then_expiry"), (0, "expiry_then_reply")):
       symbolic="set value", assumes=["set-up requests succeed", "the timer did expire (reading the timerfd returns one expiration)"],
       bounds="one routed request; one batch of two events (%s)" % _nm, **_scn_batch)
 _also(["C14.batch_"], ["C14", "C06"])
+
+# ------------------------------------------------------------------------------------------------ round-2 strengthening and new leaves
+O(id="C13.url_match", props=["C13"], harness="harness/c13_url.c", entry="harness_url_match", reach=["match", "short_path"], unwind=12,
+  unwindset={"strlen.0": 12, "strncmp.0": 12}, functions=["find_url_handler"],
+  symbolic="requested path: length 0..10 and every byte (not NUL-terminated, exact-size heap object)", stubs=[], assumes=[], bounds="paths <= 10 bytes, one handler '/api/jet/'")
+O(id="C08.visibility_prefix_group", props=["C08"], entry="harness_visibility", defines=["VISCASE=3"],
+  functions=_AF + ["add_fetch_to_state_and_notify", "set_or_call", "fill_access", "get_elements"], symbolic="state value", assumes=["set-up requests succeed"],
+  bounds="state 's' with fetchGroups/setGroups [g1]; peer P1 is a member of group 'g' only (a different group whose name is a prefix)", **_scn_auth)
+O(id="C20.passwd_own_readonly_account", props=["C20", "C08", "C02"], entry="harness_passwd", defines=["PWCASE=6"], reach=["refused"], functions=_AF,
+  symbolic="(concrete requester/target)", assumes=["the requester's own authentication succeeds"], bounds="database of 5 users; the read-only user changes its own password", **_scn_auth)
+for _r, _nm, _op, _rch in ((10, "contains_all_of_ci_second_missing", "A", ["not_matched"]), (11, "contains_all_of_ci", "A", ["matched"]), (12, "equals_not_ci", "A", ["not_matched"]),
+                           (12, "equals_not_ci", "z", ["matched"]), (13, "contains_ci", "A", ["matched"]), (14, "starts_with_ci", "A", ["matched"]), (15, "ends_with_ci", "A", ["matched"]),
+                           (15, "ends_with_ci", "z", ["not_matched"])):
+    O(id="C16.rule_%s_%s" % (_nm, _op), props=["C16", "C06", "C01"], entry="harness_rule", reach=_rch, defines=["RULE=%d" % _r, "OPCHAR='%s'" % _op],
+      functions=["add_fetch_to_peer", "create_fetch", "add_matchers", "create_matcher", "matchers[] table", "state_matches", "add_fetch_to_states"],
+      symbolic="state value (operand byte '%s' fixed per obligation)" % _op, assumes=["set-up add of 'ab' succeeds"],
+      bounds="skeleton: A add 'ab'; B fetch with rule shape '%s' and operand byte '%s'; A change 'ab'" % (_nm, _op), **_scn_rule)
+O(id="C05.ws_ping_write_fails", props=["C05", "C12"], entry="harness_ping_write_fails", functions=["ws_get_payload", "ws_handle_frame", "handle_error", "websocket_close"],
+  symbolic="mask bytes", assumes=[], bounds="one 2-byte ping whose pong write fails", **_ws)
+O(id="C05.caller_leaves_after_element_removed", props=["C05", "C03", "C07"], entry="harness_caller_leaves_after_element_removed", functions=_RF + ["remove_peer_from_routes"],
+  symbolic="set value", assumes=["set-up succeeds"], bounds="skeleton: O add 's'; A set; O remove 's'; A disconnects; O replies late; O disconnects", **_scn_route)
+_GUARDS = [(0, "set_on_method", "refused"), (1, "call_on_state", "refused"), (2, "set_on_fetch_only", "refused"), (3, "set_unknown_path", "refused"), (4, "call_unknown_path", "refused"),
+           (5, "change_on_method", "refused"), (6, "add_path_of_other_peer", "refused"), (7, "add_own_path_again", "refused"), (8, "set_without_value", "refused"),
+           (9, "set_on_state", "routed"), (10, "call_on_method", "routed"), (11, "remove_by_other_peer", "refused")]
+_scn_guard = dict(_scn, harness="harness/scn_guard.c",
+                  unwindset=dict(_scn["unwindset"], **{"verif_router_snprintf.0": 10, "verif_router_snprintf.1": 5}),
+                  stubs=_SCN_STUBS + ["snprintf in router.c: stand-in for the two id formats"])
+for _g, _nm, _out in _GUARDS:
+    O(id="C04.guard_" + _nm, props=["C04", "C02", "C03"], entry="harness_guard", reach=[_out], defines=["GUARD=%d" % _g],
+      functions=["add_element_to_peer", "init_element", "change_state", "set_or_call", "remove_element_from_peer", "element_table_get"],
+      symbolic="value / argument", assumes=["set-up adds succeed"],
+      bounds="O owns state 's', method 'm', fetch-only state 'f'; one request (%s) by A or O" % _nm, **_scn_guard)
+_sp = dict(harness="harness/sp_leaves.c", units=["src/linux/jet_endian.c"], unwind=6,
+           stubs=["buffered reader: read_exactly/writev/close record their arguments", "parse_message: records (pointer, length), symbolic verdict", "free_peer_resources/init_peer: record only"])
+O(id="C09.length_prefix", props=["C09", "C06"], entry="harness_length_prefix", reach=["zero_length", "message_requested"], functions=["init_socket_peer", "read_msg_length"],
+  symbolic="the four prefix bytes", assumes=[], bounds="none", **_sp)
+O(id="C09.message_callback", props=["C09", "C05", "C06"], entry="harness_message", reach=["fin", "bad_message"], functions=["read_msg", "free_jet_peer"],
+  symbolic="message length 0..4, parser verdict", assumes=[], bounds="none", **_sp)
+O(id="C10.raw_header", props=["C10"], entry="harness_send_message", reach=["too_long"], functions=["send_message"],
+  symbolic="payload length (all 2^64 values)", assumes=[], bounds="payload abstract (pointer identity)", **_sp)
+_wu = dict(harness="harness/ws_upgrade.c", units=["src/compression.c", "src/utf8_checker.c", "src/linux/jet_endian.c", "src/base64.c"],
+           stubs=["isspace: C-locale reference", "SHA1*: fixed digest (the hash itself is not encoded)", "connection writev: records the response", "zlib init/end: return Z_OK", "jet_strncasecmp: reference"])
+O(id="C12.upgrade_rules", props=["C12", "C13"], entry="harness_upgrade_rules", reach=["accepted", "valid"], unwind=30,
+  unwindset={"strlen.0": 30, "jet_strncasecmp.0": 26, "memcmp.0": 30, "check_websocket_protocol.0": 18, "check_websocket_protocol.1": 18, "b64_encode_buffer.0": 9, "b64_encode_buffer.1": 9, "SHA1Result.0": 22},
+  functions=["websocket_upgrade_on_header_field", "websocket_upgrade_on_header_value", "websocket_upgrade_on_headers_complete", "send_upgrade_response", "check_websocket_protocol", "save_websocket_key", "check_websocket_version", "check_http_version"],
+  symbolic="which of key/version/protocol/other headers are sent and whether each is well-formed; method, HTTP minor version, upgrade flag",
+  assumes=["a header-callback error stops the HTTP parser (headers-complete is not reached)"], bounds="header texts from a closed vocabulary", **_wu)
+O(id="C12.base64", props=["C12"], entry="harness_b64", unwind=22, unwindset={"b64_encode_buffer.0": 9, "b64_encode_buffer.1": 9},
+  functions=["b64_encode_buffer"], symbolic="20 input bytes, observed output group", assumes=[], bounds="20-byte input (the SHA-1 digest size)", **_wu)
+for _i, (_lvl, _offer) in enumerate(((2, "permessage-deflate"), (2, "permessage-deflate; client_max_window_bits"), (1, "permessage-deflate; server_max_window_bits=10; client_no_context_takeover"),
+                                     (3, "permessage-deflate; client_max_window_bits=9; server_no_context_takeover"), (2, "permessage-deflate; bogus_parameter"),
+                                     (2, "x-webkit-deflate-frame, permessage-deflate; client_max_window_bits=15"))):
+    O(id="C19.negotiation_%d" % _i, props=["C19", "C06"], entry="harness_negotiation", unwind=12, tier="quick" if _i in (1, 4) else "thorough",
+      timeout={"quick": 600, "thorough": 1800},
+      unwindset={"strlen.0": 130, "has.0": 130, "strncmp.0": 30, "memcmp.0": 30, "fill_requested_extension.0": 90, "fill_requested_extension.1": 90, "fill_requested_extension.2": 90,
+                 "check_websocket_extensions.0": 90, "check_websocket_extensions.1": 90, "memcpy.0": 30},
+      defines=["NEG_LEVEL=%d" % _lvl, 'NEG_OFFER="%s"' % _offer],
+      functions=["check_websocket_extensions", "fill_requested_extension", "write_to_response", "alloc_compression"],
+      symbolic="(concrete offer per obligation: '%s', compression level %d)" % (_offer, _lvl), assumes=["realloc succeeds"], bounds="one extension offer", **_wu)
